@@ -6,7 +6,7 @@
 From Coq Require Import NArith List Bool String.
 From KT Require Import Gen.Generated Model.Kmer Model.Show Model.Fs Model.Ops Model.Rows.
 From KT Require Import Proof.RevComp Proof.PosMap Proof.Merge Proof.Sched.
-From KT Require Proof.CountSched Model.Pipeline.
+From KT Require Proof.CountSched Proof.Batch Model.Pipeline.
 Import ListNotations.
 Open Scope N_scope.
 
@@ -86,7 +86,7 @@ Definition probe (f : fs) (tag : list N) (p : path) : list (list N) :=
 Definition listing (dir : path) (pmax cmax : N) (f : fs) : list N :=
   join [59] (flat_map (fun p => flat_map (fun c => probe f (116 :: dec p ++ 46 :: dec c) (temp_name dir p c)) (nrange cmax)) (nrange pmax)
              ++ probe f (str "counts") (counts_name dir)
-             ++ match fs_read (vectors_name dir) f with Some _ => [str "vectors"] | None => [] end).
+             ++ match fs_read (vectors_name dir) f with Some t => [str "vectors=" ++ to_hex t] | None => [] end).
 Definition ctrfs_setup (k : nat) (limit : N) (plant : bool) (recs : list (list N)) :=
   let dir := str "out" in
   let total_len := fold_right (fun s a => N.of_nat (List.length s) + a) 0 recs in
@@ -114,4 +114,38 @@ Definition s_ctrfs (k : nat) (limit : N) (plant : bool) (recs : list (list N)) :
           else [116 :: dec p ++ 46 :: dec c ++ [61] ++ show_table [(p, 7%nat); (p + 100, 3%nat)]]) (nrange 4)) (nrange 20)
     else [] in
   ctrfs_head dir n_parts chunks f1 ++
-  join [59] (stale ++ [str "counts=" ++ Pipeline.s_ctr k false recs] ++ (if plant then [str "vectors"] else [])).
+  join [59] (stale ++ [str "counts=" ++ Pipeline.s_ctr k false recs] ++ (if plant then [str "vectors=" ++ to_hex (str "stale")] else [])).
+
+(* ---- cov: build_table = count + merge(true) into the output directory, then compute_coverages reads
+   kmers.counts back into a map and creates kmers.vectors.  A counts file has one line per key (C07), so the
+   map's last-insert-wins and the table's first-match lookup agree. ---- *)
+Definition cov_table (lines : list (N * nat)) : list (N * N) := map (fun kv => (fst kv, N.of_nat (snd kv))) lines.
+Definition cov_rows (k bs bc : nat) (norm : bool) (delim : list N) (mem : nat) (tbl : list (N * N)) (recs : list (list N)) : list N :=
+  List.concat (Batch.batch_go (list N) (list N) (Pipeline.cov_row_bytes k bs bc norm delim tbl) (@List.length N) true mem [] 0 recs []).
+Definition cov_fs (k bs bc : nat) (norm : bool) (delim : list N) (mem : nat) (n_parts : N) (dir : path)
+                  (bags : list (list N)) (recs : list (list N)) (f : fs) : option fs :=
+  match ctr_fs n_parts dir bags f with
+  | None => None
+  | Some f1 => match fs_read (counts_name dir) f1 with
+               | None => None                                   (* File::open(kmer_path).unwrap() *)
+               | Some t => Some (fs_write (vectors_name dir) (cov_rows k bs bc norm delim mem (cov_table (parse_file t)) recs) f1)
+               end
+  end.
+(* covfs k bs bc norm limit plant recs : counting input = the same file, one worker, rows flushed per record *)
+Definition m_covfs (k bs bc : nat) (norm : bool) (limit : N) (plant : bool) (recs : list (list N)) : list N :=
+  let '(dir, n_parts, chunks, f1) := ctrfs_setup k limit plant recs in
+  let f0 := if plant then stale_fs dir else [] in
+  dec n_parts ++ [44] ++ dec chunks ++ [124] ++
+  match cov_fs k bs bc norm [44] 0 n_parts dir (passes k limit recs) recs f0 with
+  | Some f2 => listing dir (N.max 20 n_parts) (N.max 4 chunks) f2
+  | None => str "PANIC"
+  end.
+Definition s_covfs (k bs bc : nat) (norm : bool) (limit : N) (plant : bool) (recs : list (list N)) : list N :=
+  let '(dir, n_parts, chunks, f1) := ctrfs_setup k limit plant recs in
+  let stale := if plant then
+      flat_map (fun p => flat_map (fun c =>
+          if (p <? n_parts) && (c <? chunks) then []
+          else [116 :: dec p ++ 46 :: dec c ++ [61] ++ show_table [(p, 7%nat); (p + 100, 3%nat)]]) (nrange 4)) (nrange 20)
+    else [] in
+  dec n_parts ++ [44] ++ dec chunks ++ [124] ++
+  join [59] (stale ++ [str "counts=" ++ Pipeline.s_ctr k false recs] ++ [str "vectors=" ++ to_hex (Pipeline.s_cov k bs bc norm [44] recs recs)]).
